@@ -107,6 +107,12 @@ claims.update({
    'Not decided: equality of results across formats and agreement with encoding/json (relations over decoded values), e.g. aliasing of decoded map elements.',
    'DESIGN.md 3.C17'),
 })
+claims.update({
+ 'C20': ('other', 'path-sensitive child coverage of every ast Format method, crash reachability over the module call graph (static + CHA) from the formatter entry points, nil-means-failure discipline of the parser constructors',
+   'On every path of every ast node\'s Format (31 types) that produces text, each child token/node/list present on that path is handed as a node to the writer or a nested Format (a child never written cannot be in the output; a token printed from bare text loses its comments); no path from format.Source / Parser.Parse / Scanner.NextToken / parser.New reaches log.Fatal*, os.Exit or an unrecovered panic except the recorded finding F6; parse* constructors return a result variable only when it is non-nil on that path (nil means failure to every caller).',
+   'Not decided: idempotence and parse-equivalence as relations over all programs; comment placement. Known finding F6: empty source reaches scanner.MustNewScanner -> log.Fatalln. tools/goctl is loaded with an alternate modfile and stand-ins for two imports missing from the offline module cache.',
+   'DESIGN.md 3.C20'),
+})
 not_built_reason = 'static rules designed (DESIGN.md section 3) but not built yet in this revision'
 
 checks, na = [], []
